@@ -5,7 +5,7 @@ P="$(readlink -f "$1")"; shift
 cd /repo || exit 2
 if ! git diff --quiet; then echo "repo dirty, refusing"; exit 2; fi
 git apply "$P" || { echo "patch does not apply"; exit 2; }
-trap 'git -C /repo checkout -- . ' EXIT
+trap 'git -C /repo checkout -- . ; (cd /verif && ./check --setup >/dev/null 2>&1)' EXIT
 cd /verif
 export VERIF_EVIDENCE_DIR=/verif/.work/evidence-trial
 for p in "$@"; do
